@@ -128,7 +128,11 @@ def _arr_binop(ufunc, a, b):
 
 def _scalar_array_ufunc(self, ufunc, method, *inputs, **kw):
     """ufunc applied to a bare symbolic scalar (np.sign(x), float_array * x, ...)."""
-    from .symarr import SymArr, wrap0
+    from .symarr import SymArr, wrap0, EW
+    if ufunc not in EW:
+        # one of the engine's own frompyfunc ufuncs received a bare scalar: hide it in a 0-d object array
+        ins = [wrap0(x) if isinstance(x, (SR, SB, SC)) else x for x in inputs]
+        return getattr(ufunc, method)(*ins, **kw)
     ins = [wrap0(x).view(SymArr) if isinstance(x, (SR, SB, SC)) else x for x in inputs]
     first = [x for x in ins if isinstance(x, SymArr)][0]
     res = SymArr.__array_ufunc__(first, ufunc, method, *ins, **kw)
